@@ -69,6 +69,15 @@ type GhostField struct {
 	Index int
 }
 
+type CensusSpec struct {
+	Kind    string // callers | writers
+	Target  string
+	Allowed []string
+	Props   []string
+	File    string
+	Line    int
+}
+
 type Monitor struct {
 	Owner    string
 	Mutex    string
@@ -88,6 +97,8 @@ type Spec struct {
 	Writers  map[string][]string
 	Callers  map[string][]string
 	MapInvs  map[string]*Clause // global map variable -> invariant over its values (v), assumed at lookups
+	GlobalGhosts map[string]*GhostField
+	Census   []*CensusSpec
 	Assumes  []string // every assumption-like clause, for the pre-report scan
 	Order    []string
 	nGhost   int
@@ -96,7 +107,7 @@ type Spec struct {
 func newSpec() *Spec {
 	return &Spec{Funcs: map[string]*FuncSpec{}, Externs: map[string]*FuncSpec{}, Methods: map[string]*FuncSpec{},
 		Roles: map[string]*FuncSpec{}, SpecFns: map[string]*SpecFn{}, Ghosts: map[string][]*GhostField{},
-		ChanInvs: map[string]*Clause{}, MapInvs: map[string]*Clause{}, Writers: map[string][]string{}, Callers: map[string][]string{}}
+		ChanInvs: map[string]*Clause{}, MapInvs: map[string]*Clause{}, GlobalGhosts: map[string]*GhostField{}, Writers: map[string][]string{}, Callers: map[string][]string{}}
 }
 
 var propTagRe = regexp.MustCompile(`^\[([A-Za-z0-9, ]+)\]\s*`)
@@ -377,6 +388,11 @@ func (s *Spec) load(path string, prefix string) error {
 			cur = nil
 			return nil
 		case "ghost":
+			if len(fields) >= 4 && fields[1] == "global" {
+				s.nGhost++
+				s.GlobalGhosts[fields[2]] = &GhostField{Owner: "", Name: fields[2], Type: strings.Join(fields[3:], " "), Index: s.nGhost}
+				return nil
+			}
 			// ghost field NAME TYPE   (inside interface/struct block)
 			if curOwner == "" || len(fields) < 4 || fields[1] != "field" {
 				return fmt.Errorf("%s:%d: ghost field outside interface/struct block", path, ln)
@@ -435,6 +451,26 @@ func (s *Spec) load(path string, prefix string) error {
 			}
 			s.MapInvs[strings.TrimSpace(rest[:i])] = c
 			s.Assumes = append(s.Assumes, "mapinv "+rest)
+			return nil
+		case "census":
+			// census[C03,C06] callers|writers TARGET : f1, f2
+			r := rest
+			var props []string
+			if m := propTagRe.FindStringSubmatch(r); m != nil {
+				for _, p := range strings.Split(m[1], ",") {
+					props = append(props, strings.TrimSpace(p))
+				}
+				r = r[len(m[0]):]
+			}
+			fs := strings.SplitN(r, " ", 2)
+			if len(fs) != 2 {
+				return fmt.Errorf("%s:%d: bad census", path, ln)
+			}
+			i := strings.LastIndex(fs[1], " : ")
+			if i < 0 {
+				return fmt.Errorf("%s:%d: bad census (missing ' : ')", path, ln)
+			}
+			s.Census = append(s.Census, &CensusSpec{Kind: fs[0], Target: strings.TrimSpace(fs[1][:i]), Allowed: splitNames(fs[1][i+3:]), Props: props, File: path, Line: ln})
 			return nil
 		case "writers", "callers":
 			i := strings.Index(rest, ":")
